@@ -371,6 +371,7 @@ def strict_and_compat(S, ob, t, kmax, timeout=120):
     ps_c = verify_paths(S, ctx, t, sl, True, kmax)
     ok_c, pan_c, out_c = conds(ps_c, ctx)
     inb = [T.not_(out_s), T.not_(out_c)]
+    ctx.uf_decls["buf"] = (T.INT, (T.INT,))
     spec = canon1(t, "buf", 0, L.t, True)
     spec_c = canon1(t, "buf", 0, L.t, False)
     for y in TYPES:
@@ -391,9 +392,11 @@ def strict_and_compat(S, ob, t, kmax, timeout=120):
                 collect(x)
     collect(spec)
     S.prove(ctx, ob, f"{t}_compatible_accepts_exactly_the_well_formed_encodings", inb, T.iff(ok_c, spec_c), timeout_s=timeout)
-    S.prove(ctx, ob, f"{t}_verify_never_panics", inb, T.and_(T.not_(pan_s), T.not_(pan_c)), timeout_s=timeout)
-    S.prove(ctx, ob, f"{t}_strict_accepts_only_canonical_encodings", inb + [ok_s], spec, timeout_s=timeout)
-    S.prove(ctx, ob, f"{t}_strict_accepts_every_canonical_encoding", inb + [spec], ok_s, timeout_s=timeout)
+    S.prove(ctx, ob, f"{t}_verify_never_panics", inb + unfold_axioms([pan_s, pan_c]), T.and_(T.not_(pan_s), T.not_(pan_c)), timeout_s=timeout,
+            extra={"replay_native": ("mol_walk", t)})
+    ax = unfold_axioms([ok_s, spec])
+    S.prove(ctx, ob, f"{t}_strict_accepts_only_canonical_encodings", inb + [ok_s] + ax, spec, timeout_s=timeout, extra={"replay_native": ("mol_strict", t)})
+    S.prove(ctx, ob, f"{t}_strict_accepts_every_canonical_encoding", inb + [spec] + ax, ok_s, timeout_s=timeout, extra={"replay_native": ("mol_strict", t)})
     S.prove(ctx, ob, f"{t}_strict_implies_compatible", inb + [ok_s] + mono, ok_c, timeout_s=timeout)
     # vacuity witness: the default value's encoding (built from the schema) is inside the bounds and accepted
     ctx.uf_decls["buf"] = (T.INT, (T.INT,))
